@@ -109,6 +109,38 @@ def r1_r2_startup(ctx):
             okb = okb or by_closure or by_fnitem or by_closure2
         elif nm.endswith('Iterator::max'):
             okb = okb or recv_maps_stages
+    # manual maximum: `if stages > max_stage { max_stage = stages }` for every module
+    from .engine.helpers import _chase_local, _single_def
+    for h, body in f.loops().items():
+        if not loop_exits_only_on_exhaustion(f, h):
+            continue
+        for b in sorted(body):
+            for i, st in enumerate(f.stmts(b)):
+                if st['k'] != 'assign' or st['p']['pr'] or st['r']['k'] != 'use':
+                    continue
+                M = st['p']['l']
+                dv = [d for d in f._defs() if d[0] == M and not d[3]]
+                if not (any(d[1] in body for d in dv) and any(d[1] not in body for d in dv)):
+                    continue
+                val = f.expr_rvalue(st['r'], b, i)
+                if not any(y[0] == 'call' and y[1] == EV + 'num_sim_start_stages' for y in walk(val)):
+                    continue
+                S = _chase_local(f, st['r']['o'])
+                from .engine.helpers import _chase
+                for (sb, cond, val) in f.guards(b):
+                    t = f.term(sb)
+                    if t['k'] != 'switch':
+                        continue
+                    rv = _chase(f, {'k': 'use', 'o': t['d']})
+                    if rv is None or rv['k'] != 'binop' or rv['op'] not in ('Gt', 'Lt'):
+                        continue
+                    truth = (val[0] == 'eq' and val[1] != 0) or (val[0] == 'ne' and tuple(val[1]) == (0,))
+                    if not truth:
+                        continue
+                    big, small = (rv['a'], rv['b']) if rv['op'] == 'Gt' else (rv['b'], rv['a'])
+                    # the candidate value is larger than the running maximum M
+                    if _chase_local(f, big) == S and _chase_local(f, small) == M:
+                        okb = True
     for x in f.calls():
         # loop form: max_stage = max_stage.max(module.num_sim_start_stages()) for every module
         nm = x.callee or x.name
@@ -138,7 +170,8 @@ def _r3_tail(ctx, f, s):
         pushed = [e for e in effs if e[0] == 'c' and e[1].name == 'std::vec::Vec::push' and receiver_field(e[2][0]) == 'modules']
         inserted = [e for e in effs if e[0] == 'c' and e[1].name == 'std::vec::Vec::insert']
         atoms = [a for _, a in path_atoms(f, path, decs)]
-        no_parent = any(a[0] == 'is' and a[2] == 'None' and a[1][0] == 'call' and a[1][1].endswith('ObjectPath::parent') for a in atoms)
+        no_parent = any(a[0] == 'is' and a[2] == 'None' and a[1][0] == 'call' and a[1][1].endswith(('ObjectPath::parent', 'ObjectPath::nonzero_parent')) for a in atoms)
+        # ObjectPath::nonzero_parent() is None exactly when there is no parent or the parent is the root (checked on its body below)
         root_parent = any(a[0] == 'bool' and a[2] is True and a[1][0] == 'call' and a[1][1].endswith('ObjectPath::is_root') for a in atoms)
         if pushed:
             n_push += 1
@@ -189,6 +222,36 @@ def r3_insertion_rule(ctx):
                         if any(d[1] not in body for d in dv):
                             adv.append((h, b))
     scans = [x for x in fwd_all if _is_tail_scan(x)]
+    counts = [x for x in walk(pos) if x[0] == 'call' and x[1].endswith('::count') and x[2] and
+              any(y[0] == 'call' and y[1].endswith('::take_while') for y in walk(x[2][0]))]
+    if not adv and not scans and counts:
+        # count form: start + modules[start..].iter().take_while(|m| m.path.len() > parent_depth).count()
+        P = ctx.P
+        tw = [y for y in walk(counts[0][2][0]) if y[0] == 'call' and y[1].endswith('::take_while')][0]
+        tail_ok = _is_tail_scan(tw)
+        keep = None
+        cl = peel(tw[2][1]) if len(tw[2]) > 1 else None
+        if cl and cl[0] == 'agg' and str(cl[1]).startswith('closure:'):
+            g = P.fns.get(cl[1][len('closure:'):])
+            for _, t in (ret_trees(g) if g else []):
+                t = peel(t)
+                if t[0] == 'bin' and t[1] in ('Le', 'Lt', 'Ge', 'Gt'):
+                    l, r, op = peel(t[2]), peel(t[3]), t[1].lower()
+                    if not (l[0] == 'call' and l[1].endswith('ObjectPath::len')):
+                        l, r, op = r, l, SWAP[op]
+                    cap = resolve_captures(P, g, r) if g else r
+                    if l[0] == 'call' and l[1].endswith('ObjectPath::len') and any(y[0] == 'arg' and y[1] == 2 for y in walk(l)) \
+                            and any(y[0] == 'call' and y[1].endswith('ObjectPath::len') for y in walk(cap)) and any(y[0] == 'call' and y[1].endswith(('ObjectPath::parent', 'ObjectPath::nonzero_parent')) for y in walk(cap)):
+                        keep = op
+        pp = peel(pos)
+        pp = pp[1] if (pp[0] == 'field' and pp[1][0] == 'bin') else pp
+        sum_ok = pp[0] == 'bin' and pp[1].startswith('Add') and any(any(z[0] == 'call' and z[1].endswith('::rposition') for z in walk(q)) and not any(z is counts[0] for z in walk(q)) for q in (pp[2], pp[3])) \
+            and any(any(z is counts[0] or z == counts[0] for z in walk(q)) for q in (pp[2], pp[3]))
+        ctx.check(keep == 'gt' and tail_ok and sum_ok, 'advance-iff-deeper',
+                  'the scan advances past an entry iff its path is strictly deeper than the parent (count form: start + number of leading deeper entries after the parent): the new child lands after the whole existing subtree of its parent and before the next sibling/ancestor entry',
+                  s.where(), {'form': 'count', 'keep_test': keep, 'over_tail_after_parent': tail_ok, 'added_to_start': sum_ok})
+        _r3_tail(ctx, f, s)
+        return
     if not adv and scans:
         # search form: modules[start..].iter().position(|m| m.path.len() <= parent_depth).map_or(modules.len(), |o| start + o)
         x = scans[0]
